@@ -6,9 +6,10 @@ import argparse, json, os, shutil, subprocess, sys
 ap = argparse.ArgumentParser()
 ap.add_argument("prop"); ap.add_argument("k"); ap.add_argument("--extra", nargs="*", default=[]); ap.add_argument("--full-suite", action="store_true")
 ap.add_argument("--tests", nargs="*", default=[]); ap.add_argument("--tier", default="quick")
+ap.add_argument("--src-root", default="/tmp/seeds"); ap.add_argument("--as", dest="as_k", default=None); ap.add_argument("--round", default=None)
 a = ap.parse_args()
-src = f"/tmp/seeds/{a.prop}-out"
-dst = f"/verif/seeded/{a.prop}-{a.k}"
+src = f"{a.src_root}/{a.prop}-out"
+dst = f"/verif/seeded/{a.prop}-{a.as_k or a.k}"
 os.makedirs(dst, exist_ok=True)
 for s, d in ((f"patch{a.k}.diff", "patch.diff"), (f"demo{a.k}.py", "demo.py"), (f"notes{a.k}.md", "notes.md")):
     if os.path.exists(os.path.join(src, s)):
@@ -26,7 +27,7 @@ conf = run(["confirm", dst] + (["--full-suite"] if a.full_suite else (["--tests"
 det = run(["detect", dst, a.prop] + a.extra + ["--tier", a.tier])
 meta_p = os.path.join(dst, "meta.json")
 meta = json.load(open(meta_p)) if os.path.exists(meta_p) else {}
-meta.update({"property": a.prop, "origin": "independent sub-agent given only the property text and a scratch worktree of /repo",
+meta.update({"property": a.prop, **({"round": a.round} if a.round else {}), "origin": "independent sub-agent given only the property text and a scratch worktree of /repo",
              "needs_to_manifest": open(os.path.join(dst, "notes.md")).read()[:1500] if os.path.exists(os.path.join(dst, "notes.md")) else "",
              "confirmation": conf, "detection": det.get("checks", det),
              "what_was_run": ["tools/seeded.py confirm (demo on clean tree / with patch, import, baseline tests)", f"tools/seeded.py detect {a.prop} {' '.join(a.extra)} --tier {a.tier}"]})
